@@ -367,7 +367,13 @@ def main(chk, replay=None):
             raise tlc.MachineryError('StatColumns of ExcelUI.tla and conf_C10.STATCOLS disagree on ' + suffix)
     W = xw.World()
     for inst in ('A', 'B'):
-        W.beads('none', inst)
+        try:
+            W.beads('none', inst)
+        except Exception as e:  # noqa  - the reference beads table (seven rows, each healthy or failing in a documented way)
+            chk.violation('C10/beads/reference-table-aborted/%s' % type(e).__name__, {'instrument': inst},
+                          'one result or row error per beads row', '%s: %s' % (type(e).__name__, str(e)[:160]))
+            calibration_calls_part(chk)
+            return
     jobs = []
     for i, (rows, exp) in enumerate(tables):
         single = len(rows) == 1
